@@ -36,6 +36,7 @@ type c10Cell struct {
 	I int64   `json:"i,omitempty"`
 	S string  `json:"s,omitempty"`
 	L []int64 `json:"l,omitempty"`
+	N []bool  `json:"n,omitempty"` // repeated columns of max definition level 2: null elements
 }
 
 type c10Sort struct {
@@ -93,8 +94,46 @@ var c10MasterCols = []c10Col{
 	{Name: "e", Str: true},
 	{Name: "g.x", MaxDef: 2},
 	{Name: "g.y", Str: true, MaxDef: 1},
-	{Name: "r", Rep: true},
+	{Name: "r", Rep: true, MaxDef: 1},
 }
+
+// c10RepT: the schema for sorting by repeated columns; items.x is a repeated
+// column whose elements may be null (max definition level 2).
+type c10Item struct {
+	X *int64 `parquet:"x,optional"`
+}
+
+type c10RepT struct {
+	ID    int64     `parquet:"id"`
+	K     int64     `parquet:"k"`
+	Items []c10Item `parquet:"items"`
+	R     []int64   `parquet:"r"`
+}
+
+var c10RepCols = []c10Col{
+	{Name: "id"},
+	{Name: "k"},
+	{Name: "items.x", Rep: true, MaxDef: 2},
+	{Name: "r", Rep: true, MaxDef: 1},
+}
+
+func c10ToRepStruct(cells []c10Cell) c10RepT {
+	r := c10RepT{ID: cells[0].I, K: cells[1].I}
+	for i, x := range cells[2].L {
+		it := c10Item{}
+		if i >= len(cells[2].N) || !cells[2].N[i] {
+			v := x
+			it.X = &v
+		}
+		r.Items = append(r.Items, it)
+	}
+	if len(cells[3].L) > 0 {
+		r.R = append([]int64(nil), cells[3].L...)
+	}
+	return r
+}
+
+func c10ElemNull(cell c10Cell, i int) bool { return i < len(cell.N) && cell.N[i] }
 
 func c10ToStruct(cells []c10Cell) c10RowT {
 	r := c10RowT{ID: cells[0].I, D: cells[4].I, E: cells[5].S}
@@ -139,7 +178,11 @@ func c10MakeRow(cols []c10Col, cells []c10Cell) parquet.Row {
 				if i > 0 {
 					rep = 1
 				}
-				row = append(row, parquet.Int64Value(x).Level(rep, 1, k))
+				if c10ElemNull(cell, i) {
+					row = append(row, parquet.Value{}.Level(rep, col.MaxDef-1, k))
+				} else {
+					row = append(row, parquet.Int64Value(x).Level(rep, col.MaxDef, k))
+				}
 			}
 		case cell.D < col.MaxDef:
 			row = append(row, parquet.Value{}.Level(0, cell.D, k))
@@ -165,8 +208,23 @@ func c10ParseRow(cols []c10Col, row parquet.Row) (cells []c10Cell, ok bool) {
 		col := cols[k]
 		seen[k]++
 		if col.Rep {
-			if !v.IsNull() {
+			switch {
+			case !v.IsNull():
+				if v.DefinitionLevel() != col.MaxDef {
+					return nil, false
+				}
 				cells[k].L = append(cells[k].L, v.Int64())
+				cells[k].N = append(cells[k].N, false)
+			case v.DefinitionLevel() == 0 && seen[k] == 1:
+				// the empty list
+			case col.MaxDef == 2 && v.DefinitionLevel() == 1:
+				cells[k].L = append(cells[k].L, 0)
+				cells[k].N = append(cells[k].N, true)
+			default:
+				return nil, false
+			}
+			if (seen[k] == 1) != (v.RepetitionLevel() == 0) {
+				return nil, false
 			}
 			continue
 		}
@@ -207,8 +265,12 @@ func c10Canon(cols []c10Col, cells []c10Cell) string {
 		switch {
 		case col.Rep:
 			sb.WriteString("l")
-			for _, x := range cell.L {
-				sb.WriteString(":" + strconv.FormatInt(x, 10))
+			for i, x := range cell.L {
+				if c10ElemNull(cell, i) {
+					sb.WriteString(":n")
+				} else {
+					sb.WriteString(":" + strconv.FormatInt(x, 10))
+				}
 			}
 		case cell.D < col.MaxDef:
 			sb.WriteString("n@" + strconv.Itoa(cell.D))
@@ -443,22 +505,40 @@ func c10CheckBuffer(c *core.Ctx, cs *c10Case) (obs []c10Obs, ok bool) {
 	cols := cs.Cols
 	sorting := c10SortingColumns(cs)
 	var buf c10Buf
-	var typedWrite func(rows []c10RowT) error
+	var typedWrite func(rows [][]c10Cell) error
 	var schema *parquet.Schema
 	typedTok := "W"
+	toStructs := func(rows [][]c10Cell) []c10RowT {
+		rs := make([]c10RowT, len(rows))
+		for i := range rows {
+			rs[i] = c10ToStruct(rows[i])
+		}
+		return rs
+	}
 	if msg := c10Guard(func() {
 		opt := parquet.SortingRowGroupConfig(parquet.SortingColumns(sorting...))
 		switch cs.Kind {
 		case "generic":
 			b := parquet.NewGenericBuffer[c10RowT](opt)
 			buf, schema = b, b.Schema()
-			typedWrite = func(rows []c10RowT) error { _, err := b.Write(rows); return err }
+			typedWrite = func(rows [][]c10Cell) error { _, err := b.Write(toStructs(rows)); return err }
 			typedTok = "T"
+		case "repeated":
+			b := parquet.NewGenericBuffer[c10RepT](opt)
+			buf, schema = b, b.Schema()
+			typedWrite = func(rows [][]c10Cell) error {
+				rs := make([]c10RepT, len(rows))
+				for i := range rows {
+					rs[i] = c10ToRepStruct(rows[i])
+				}
+				_, err := b.Write(rs)
+				return err
+			}
 		case "rowbuffer":
 			if cs.Master {
 				b := parquet.NewRowBuffer[c10RowT](opt)
 				buf, schema = b, b.Schema()
-				typedWrite = func(rows []c10RowT) error { _, err := b.Write(rows); return err }
+				typedWrite = func(rows [][]c10Cell) error { _, err := b.Write(toStructs(rows)); return err }
 			} else {
 				schema = c10Schema(cs)
 				b := parquet.NewRowBuffer[any](schema, opt)
@@ -469,7 +549,8 @@ func c10CheckBuffer(c *core.Ctx, cs *c10Case) (obs []c10Obs, ok bool) {
 			b := parquet.NewBuffer(schema, opt)
 			buf = b
 			if cs.Master {
-				typedWrite = func(rows []c10RowT) error {
+				typedWrite = func(cells [][]c10Cell) error {
+					rows := toStructs(cells)
 					for i := range rows {
 						if err := b.Write(&rows[i]); err != nil {
 							return err
@@ -485,6 +566,31 @@ func c10CheckBuffer(c *core.Ctx, cs *c10Case) (obs []c10Obs, ok bool) {
 	}
 	compare := schema.Comparator(sorting...)
 	head := c10ModelHead(cs)
+	// the model: the multi-column buffer of required and optional columns, or
+	// (sorting by one repeated column) the repeated column buffer alone
+	useModel, nparts, repCol := true, 4, -1
+	rowsW := func(rows [][]c10Cell) string { return c10ModelRowsW(cols, rows) }
+	rowsR := func(rows [][]c10Cell) string { return c10ModelRowsR(cols, rows) }
+	if cs.Kind == "repeated" {
+		useModel = false
+		if len(cs.Sorting) == 1 && cols[cs.Sorting[0].Col].Rep {
+			useModel, nparts, repCol = true, 3, cs.Sorting[0].Col
+			head = fmt.Sprintf("c10.rep %x %s %s ", cols[repCol].MaxDef, b01(cs.Sorting[0].NullsFirst), b01(cs.Sorting[0].Desc))
+			rowsW = func(rows [][]c10Cell) string { return c10RepRows(cols[repCol], repCol, rows, ";") }
+			rowsR = func(rows [][]c10Cell) string {
+				if len(rows) == 0 {
+					return "_"
+				}
+				return c10RepRows(cols[repCol], repCol, rows, "|")
+			}
+		}
+	}
+	cls := func(k string) string {
+		if cs.Kind == "repeated" && (k == "less-vs-comparator" || k == "not-sorted") {
+			return "repeated-sort-order"
+		}
+		return k
+	}
 	var ops []string
 	var cur, written [][]c10Cell
 	sortedNow := false
@@ -515,7 +621,7 @@ func c10CheckBuffer(c *core.Ctx, cs *c10Case) (obs []c10Obs, ok bool) {
 					sb.WriteString(b01(l))
 					if want := compare(prs[i], prs[j]) < 0; want != l && good {
 						good = false
-						c.Violation("less-vs-comparator", fmt.Sprintf("%s: Less(%d,%d) = %v but Schema.Comparator(row %d, row %d) = %d; rows %s and %s; sorting %+v",
+						c.Violation(cls("less-vs-comparator"), fmt.Sprintf("%s: Less(%d,%d) = %v but Schema.Comparator(row %d, row %d) = %d; rows %s and %s; sorting %+v",
 							where, i, j, l, i, j, compare(prs[i], prs[j]), c10Canon(cols, cur[i]), c10Canon(cols, cur[j]), cs.Sorting), cs)
 					}
 				}
@@ -562,11 +668,7 @@ func c10CheckBuffer(c *core.Ctx, cs *c10Case) (obs []c10Obs, ok bool) {
 			var err error
 			msg := c10Guard(func() {
 				if typed {
-					rs := make([]c10RowT, len(st.Rows))
-					for i := range st.Rows {
-						rs[i] = c10ToStruct(st.Rows[i])
-					}
-					err = typedWrite(rs)
+					err = typedWrite(st.Rows)
 				} else {
 					prs := make([]parquet.Row, len(st.Rows))
 					for i := range st.Rows {
@@ -585,7 +687,10 @@ func c10CheckBuffer(c *core.Ctx, cs *c10Case) (obs []c10Obs, ok bool) {
 			if typed {
 				tok = typedTok
 			}
-			ops = append(ops, tok+c10ModelRowsW(cols, st.Rows))
+			if repCol >= 0 {
+				tok = "W"
+			}
+			ops = append(ops, tok+rowsW(st.Rows))
 			sortedNow = false
 		case "sort":
 			if len(cur) <= 40 {
@@ -596,16 +701,19 @@ func c10CheckBuffer(c *core.Ctx, cs *c10Case) (obs []c10Obs, ok bool) {
 				if lm == "" {
 					return nil, false
 				}
-				if ans := askModel(); len(ans) == 4 {
+				if !useModel {
+				} else if ans := askModel(); len(ans) == nparts {
 					if ans[2] != lm && good {
 						c.Mismatch("corr:C10.less", head+strings.Join(ops, "/"), lm, ans[2], cs)
 						ok = false
 					}
-					if cm := cmpMatrix(); ans[3] != cm && good {
-						c.Mismatch("corr:C10.comparator", head+strings.Join(ops, "/"), cm, ans[3], cs)
-						ok = false
+					if nparts == 4 {
+						if cm := cmpMatrix(); ans[3] != cm && good {
+							c.Mismatch("corr:C10.comparator", head+strings.Join(ops, "/"), cm, ans[3], cs)
+							ok = false
+						}
 					}
-					if mr := c10ModelRowsR(cols, cur); ans[0] != mr {
+					if mr := rowsR(cur); ans[0] != mr {
 						c.Mismatch("corr:C10.logical-rows", head+strings.Join(ops, "/"), mr, ans[0], cs)
 						ok = false
 					}
@@ -678,7 +786,7 @@ func c10CheckBuffer(c *core.Ctx, cs *c10Case) (obs []c10Obs, ok bool) {
 			if sortedNow {
 				for i := 0; i+1 < len(got); i++ {
 					if x := compare(got[i], got[i+1]); x > 0 {
-						c.Violation("not-sorted", fmt.Sprintf("%s: after sort.Sort rows %d and %d are out of order for Schema.Comparator (%d): %s then %s; sorting %+v", where, i, i+1, x, a[i], a[i+1], cs.Sorting), cs)
+						c.Violation(cls("not-sorted"), fmt.Sprintf("%s: after sort.Sort rows %d and %d are out of order for Schema.Comparator (%d): %s then %s; sorting %+v", where, i, i+1, x, a[i], a[i+1], cs.Sorting), cs)
 						ok = false
 						break
 					}
@@ -693,8 +801,9 @@ func c10CheckBuffer(c *core.Ctx, cs *c10Case) (obs []c10Obs, ok bool) {
 				if lm == "" {
 					return nil, false
 				}
-				if ans := askModel(); len(ans) == 4 {
-					mr := c10ModelRowsR(cols, gotCells)
+				if !useModel {
+				} else if ans := askModel(); len(ans) == nparts {
+					mr := rowsR(gotCells)
 					if ans[1] != mr {
 						c.Mismatch("corr:C10.page-rows", head+strings.Join(ops, "/"), mr, ans[1], cs)
 						ok = false
@@ -707,7 +816,9 @@ func c10CheckBuffer(c *core.Ctx, cs *c10Case) (obs []c10Obs, ok bool) {
 						c.Mismatch("corr:C10.less-after-page", head+strings.Join(ops, "/"), lm, ans[2], cs)
 						ok = false
 					}
-					obs = append(obs, c10Obs{ops: strings.Join(ops, "/"), rows: mr, less: lm, nrows: len(cur)})
+					if nparts == 4 {
+						obs = append(obs, c10Obs{ops: strings.Join(ops, "/"), rows: mr, less: lm, nrows: len(cur)})
+					}
 				} else if c.HasOracle() {
 					c.Mismatch("corr:C10.page-rows", head+strings.Join(ops, "/"), lm, strings.Join(ans, "#"), cs)
 					ok = false
@@ -952,56 +1063,32 @@ func c10CheckWriter(c *core.Ctx, cs *c10Case) bool {
 }
 
 // ---------------------------------------------------------------------------
-// a repeated column as sorting column: buffer order against Schema.Comparator
+// a repeated column as sorting column: the same histories on
+// GenericBuffer[c10RepT]; c10RepRows renders one repeated column for the model
 
-func c10CheckRepeated(c *core.Ctx, cs *c10Case) bool {
-	cols := cs.Cols
-	sorting := c10SortingColumns(cs)
-	var rowsIn [][]c10Cell
-	for _, st := range cs.Steps {
-		rowsIn = append(rowsIn, st.Rows...)
-	}
-	ok := true
-	msg := c10Guard(func() {
-		buf := parquet.NewGenericBuffer[c10RowT](parquet.SortingRowGroupConfig(parquet.SortingColumns(sorting...)))
-		compare := buf.Schema().Comparator(sorting...)
-		rs := make([]c10RowT, len(rowsIn))
-		prs := make([]parquet.Row, len(rowsIn))
-		for i := range rowsIn {
-			rs[i] = c10ToStruct(rowsIn[i])
-			prs[i] = c10MakeRow(cols, rowsIn[i])
+func c10RepRows(col c10Col, k int, rows [][]c10Cell, rowSep string) string {
+	var out []string
+	for _, r := range rows {
+		cell := r[k]
+		if len(cell.L) == 0 {
+			out = append(out, "0.0.n")
+			continue
 		}
-		buf.Write(rs)
-		for i := range prs {
-			for j := range prs {
-				if l, want := buf.Less(i, j), compare(prs[i], prs[j]) < 0; l != want {
-					c.Violation("repeated-sort-order", fmt.Sprintf("sorting by a repeated column: Less(%d,%d) = %v but Schema.Comparator = %d; rows %s and %s; sorting %+v",
-						i, j, l, compare(prs[i], prs[j]), c10Canon(cols, rowsIn[i]), c10Canon(cols, rowsIn[j]), cs.Sorting), cs)
-					ok = false
-					return
-				}
+		var vs []string
+		for i, x := range cell.L {
+			rep := "0"
+			if i > 0 {
+				rep = "1"
+			}
+			if c10ElemNull(cell, i) {
+				vs = append(vs, fmt.Sprintf("%s.%x.n", rep, col.MaxDef-1))
+			} else {
+				vs = append(vs, fmt.Sprintf("%s.%x.i%s", rep, col.MaxDef, core.Zs(x)))
 			}
 		}
-		sort.Sort(buf)
-		got, err := c10ReadAll(buf.Rows())
-		if err != nil {
-			c.Violation("repeated-sort-order", "reading failed: "+err.Error(), cs)
-			ok = false
-			return
-		}
-		for i := 0; i+1 < len(got); i++ {
-			if compare(got[i], got[i+1]) > 0 {
-				c.Violation("repeated-sort-order", fmt.Sprintf("sorting by a repeated column: after sort.Sort rows %d and %d are out of order for Schema.Comparator: %v then %v", i, i+1, got[i], got[i+1]), cs)
-				ok = false
-				return
-			}
-		}
-	})
-	if msg != "" {
-		c.Violation("repeated-sort-order", "panic: "+msg, cs)
-		return false
+		out = append(out, strings.Join(vs, ";"))
 	}
-	return ok
+	return strings.Join(out, rowSep)
 }
 
 // ---------------------------------------------------------------------------
@@ -1011,8 +1098,6 @@ func c10Check(c *core.Ctx, cs *c10Case) ([]c10Obs, bool) {
 	switch cs.Kind {
 	case "writer":
 		return nil, c10CheckWriter(c, cs)
-	case "repeated":
-		return nil, c10CheckRepeated(c, cs)
 	}
 	return c10CheckBuffer(c, cs)
 }
@@ -1158,7 +1243,16 @@ func (g *c10Gen) row() []c10Cell {
 		case col.Rep:
 			n := c.Rng.Intn(4)
 			for i := 0; i < n; i++ {
-				cells[k].L = append(cells[k].L, int64(c.Rng.Intn(3)))
+				if col.MaxDef == 2 && c.Rng.Intn(4) == 0 {
+					cells[k].L = append(cells[k].L, 0)
+					cells[k].N = append(cells[k].N, true)
+				} else {
+					cells[k].L = append(cells[k].L, int64(c.Rng.Intn(3)))
+					cells[k].N = append(cells[k].N, false)
+				}
+			}
+			if col.MaxDef != 2 {
+				cells[k].N = nil
 			}
 		default:
 			null := false
@@ -1239,7 +1333,7 @@ func c10GenCols(c *core.Ctx) []c10Col {
 		cols = append(cols, col)
 	}
 	if c.Rng.Intn(2) == 0 {
-		cols = append(cols, c10Col{Name: "r", Rep: true})
+		cols = append(cols, c10Col{Name: "r", Rep: true, MaxDef: 1})
 	}
 	return cols
 }
@@ -1461,7 +1555,7 @@ Definition agrees (c : case) : bool :=
 // ---------------------------------------------------------------------------
 
 func runC10(c *core.Ctx) {
-	c.Res.Rule = "histories (write | writerows)* ; sort ; read ; write more ; sort ; read ... on parquet.NewGenericBuffer[T] (typed column writes), parquet.NewBuffer (dynamic Group schemas, WriteRows / Write), parquet.NewRowBuffer, and parquet.NewSortingWriter (sort-run sizes 1..N, buffer pools, DropDuplicatedRows, MaxRowsPerRowGroup) read back from the output file. Schemas: a master struct (required/optional int64 and string columns, a dictionary column, an optional group with a nested optional leaf of max definition level 2, a repeated payload) and generated Group schemas; 1-3 sorting columns, asc/desc x nulls first/last; values from a small domain (duplicates), null/non-null runs of length 1..20 per column. Every swap sort.Sort performs is recorded and replayed in the model. A case is one history; non-trivial = at least 2 rows and a sort; distinct by the JSON of the case."
+	c.Res.Rule = "histories (write | writerows)* ; sort ; read ; write more ; sort ; read ... on parquet.NewGenericBuffer[T] (typed column writes), parquet.NewBuffer (dynamic Group schemas, WriteRows / Write), parquet.NewRowBuffer, and parquet.NewSortingWriter (sort-run sizes 1..N, buffer pools, DropDuplicatedRows, MaxRowsPerRowGroup) read back from the output file. Schemas: a master struct (required/optional int64 and string columns, a dictionary column, an optional group with a nested optional leaf of max definition level 2, a repeated payload) and generated Group schemas; 1-3 sorting columns, asc/desc x nulls first/last; values from a small domain (duplicates), null/non-null runs of length 1..20 per column. Every swap sort.Sort performs is recorded and replayed in the model. Sorting by repeated columns (a []int64 column and a repeated group's optional leaf with null elements) runs the same histories on GenericBuffer against the model of repeatedColumnBuffer. A case is one history; non-trivial = at least 2 rows and a sort; distinct by the JSON of the case."
 	var vm []string
 	addVm := func(cs *c10Case, obs []c10Obs) {
 		for _, o := range obs {
@@ -1591,22 +1685,45 @@ func runC10(c *core.Ctx) {
 		}
 	}
 
-	// ---- a repeated column as sorting column (no model: Less against Schema.Comparator)
-	rep := &c10Case{Kind: "repeated", Master: true, Cols: c10MasterCols, Sorting: []c10Sort{{Col: 8}}}
-	r1, r2 := c10MasterRow(1, nil), c10MasterRow(2, nil)
-	r1[8].L, r2[8].L = []int64{1, 3}, []int64{1, 2}
-	rep.Steps = []c10Step{{Op: "write", Rows: [][]c10Cell{r1, r2}}}
-	c10Run(c, rep, "repeated-sorting-column")
-	nR := c.N(40, 400)
+	// ---- repeated columns as sorting columns (model: the repeated column buffer alone)
+	repRow := func(id int64, items []int64, nulls []bool, r []int64) []c10Cell {
+		return []c10Cell{{I: id}, {I: 1}, {L: items, N: nulls}, {L: r}}
+	}
+	repCorpus := []*c10Case{
+		// Less must compare every element, not only the first
+		{Kind: "repeated", Cols: c10RepCols, Sorting: []c10Sort{{Col: 3}},
+			Steps: []c10Step{{Op: "write", Rows: [][]c10Cell{repRow(1, nil, nil, []int64{1, 3}), repRow(2, nil, nil, []int64{1, 2})}}, {Op: "sort"}, {Op: "read"}}},
+		// descending: a prefix row still sorts first
+		{Kind: "repeated", Cols: c10RepCols, Sorting: []c10Sort{{Col: 3, Desc: true}},
+			Steps: []c10Step{{Op: "write", Rows: [][]c10Cell{repRow(1, nil, nil, []int64{1, 3}), repRow(2, nil, nil, []int64{1}), repRow(3, nil, nil, nil)}}, {Op: "sort"}, {Op: "read"}}},
+		// null elements before the compared position: the base index must skip them
+		{Kind: "repeated", Cols: c10RepCols, Sorting: []c10Sort{{Col: 2, NullsFirst: true}},
+			Steps: []c10Step{{Op: "write", Rows: [][]c10Cell{
+				repRow(1, []int64{0, 2, 1}, []bool{true, false, false}, nil),
+				repRow(2, []int64{0, 2, 0}, []bool{true, false, false}, nil),
+				repRow(3, []int64{5}, []bool{false}, nil)}}, {Op: "sort"}, {Op: "read"},
+				{Op: "writerows", Rows: [][]c10Cell{repRow(4, []int64{0, 0}, []bool{true, true}, []int64{7})}}, {Op: "sort"}, {Op: "read"}}},
+	}
+	for _, cs := range repCorpus {
+		c10Run(c, cs, "repeated-sorting-column")
+	}
+	nR := c.N(160, 2000)
 	for i := 0; i < nR && c10Hangs == 0; i++ {
-		cs := &c10Case{Kind: "repeated", Master: true, Cols: c10MasterCols}
-		cs.Sorting = []c10Sort{{Col: 8, Desc: c.Rng.Intn(2) == 0, NullsFirst: c.Rng.Intn(2) == 0}}
-		if c.Rng.Intn(2) == 0 {
-			cs.Sorting = append([]c10Sort{{Col: 4, Desc: c.Rng.Intn(2) == 0}}, cs.Sorting...)
+		cs := &c10Case{Kind: "repeated", Cols: c10RepCols}
+		cs.Sorting = []c10Sort{{Col: 2 + c.Rng.Intn(2), Desc: c.Rng.Intn(2) == 0, NullsFirst: c.Rng.Intn(2) == 0}}
+		switch c.Rng.Intn(4) {
+		case 0:
+			cs.Sorting = append([]c10Sort{{Col: 1, Desc: c.Rng.Intn(2) == 0}}, cs.Sorting...)
+		case 1:
+			cs.Sorting = append(cs.Sorting, c10Sort{Col: 5 - cs.Sorting[0].Col, Desc: c.Rng.Intn(2) == 0, NullsFirst: c.Rng.Intn(2) == 0})
 		}
 		g := c10NewGen(c, cs.Cols)
-		cs.Steps = []c10Step{{Op: "write", Rows: g.batch(2 + c.Rng.Intn(12))}}
-		c10Run(c, cs, "repeated-sorting-column")
+		g.dom = 1 + c.Rng.Intn(2)
+		cs.Steps = c10GenHistory(c, g, 30, true)
+		c10Run(c, cs, fmt.Sprintf("repeated-sorting-column/%d", len(cs.Sorting)))
+		if i == 0 {
+			c.Sample(cs)
+		}
 	}
 
 	if c10Hangs > 0 {
